@@ -37,6 +37,13 @@ def to_term(it, v, desc):
             units = [z3.Unit(to_term(it, x, inner)) for x in items]
             return units[0] if len(units) == 1 else z3.Concat(*units)
         raise Unsupported('expected list for %s, got %r' % (desc, v))
+    if desc.startswith('Tup['):
+        sort, ctor, accs, comps = te.tuple_info(desc)
+        if isinstance(v, ListVal):
+            v = tuple(v.items)
+        if not isinstance(v, tuple) or len(v) != len(comps):
+            raise Unsupported('expected %d-tuple for %s, got %r' % (len(comps), desc, v))
+        return ctor(*[to_term(it, x, c) for x, c in zip(v, comps)])
     recs = te.members_of(desc)
     if recs:
         if isinstance(v, Packed):
@@ -62,6 +69,12 @@ def from_term(it, t, desc):
         return t
     if desc.startswith('Seq['):
         return SeqVal(t, desc[4:-1])
+    if desc.startswith('Tup['):
+        sort, ctor, accs, comps = te.tuple_info(desc)
+        st = z3.simplify(t)
+        if z3.is_app(st) and st.decl().eq(ctor):
+            return tuple(from_term(it, st.arg(i), c) for i, c in enumerate(comps))
+        return tuple(from_term(it, a(t), c) for a, c in zip(accs, comps))
     if te.members_of(desc):
         return Packed(t, desc)
     raise Unsupported('unknown descriptor %r' % desc)
@@ -78,6 +91,9 @@ def fresh_value(it, name, desc, explode=True):
         return p.fresh(name, te.sort_of(desc))
     if desc.startswith('Seq['):
         return SeqVal(p.fresh(name, te.sort_of(desc)), desc[4:-1])
+    if desc.startswith('Tup['):
+        sort, ctor, accs, comps = te.tuple_info(desc)
+        return tuple(fresh_value(it, '%s.%d' % (name, i), c) for i, c in enumerate(comps))
     recs = te.members_of(desc)
     if recs:
         if explode and len(recs) == 1 and desc in te.records:
